@@ -119,6 +119,17 @@ func init() {
 							map[string]any{"variant": variant, "input": strconv.Quote(string(prefix))})
 						return false
 					}
+					// the same with a Context set on the lexer: every token, the end-of-input tokens included, carries it
+					// in its position whatever the flags
+					if im.NewLexerCtx != nil && sim.NewLexerCtx != nil {
+						ca, cb := ctxFlags(im.NewLexerCtx(prefix), len(prefix)), ctxFlags(sim.NewLexerCtx(prefix), len(prefix))
+						st.add("inputs_with_context", 1)
+						if ca != cb {
+							st.violation("C12", it.ID+" "+variant+" ctx "+strconv.Quote(string(prefix)), fmt.Sprintf("flags %v: with a Context set on the lexer, the tokens of %q carry it as %s (1 = yes, per token, two end-of-input tokens included); plain build: %s", sb.Flags, prefix, cb, ca),
+								map[string]any{"variant": variant, "input": strconv.Quote(string(prefix))})
+							return false
+						}
+					}
 					if d == 0 {
 						return true
 					}
@@ -134,4 +145,26 @@ func init() {
 		}
 		st.sample(map[string]any{"grammar": it.Text, "variants": len(sibs)})
 	}
+}
+
+// ctxFlags scans to the end of input and once more; one character per token: does its position carry the Context?
+func ctxFlags(l rt.Lexer, n int) string {
+	s := ""
+	for i := 0; i < n+4; i++ {
+		t := l.Scan()
+		if t.Ctx {
+			s += "1"
+		} else {
+			s += "0"
+		}
+		if t.Type == 1 {
+			if t2 := l.Scan(); t2.Ctx {
+				s += "1"
+			} else {
+				s += "0"
+			}
+			break
+		}
+	}
+	return s
 }
